@@ -34,7 +34,9 @@ def generate_cases(run, tier, big=True):
         # (depth 2 over three tag defaults: 20 000 types with their value tables; the 16 driver processes, each holding its
         # share of the cases, were killed by the kernel for lack of memory)
         # (big payloads - a minute of TLC each in validation - under one tag default only)
-        bfs = [(2, False, ['A']), (1, True, ['E'], True), (1, True, ['I', 'A'])]
+        # (a depth-2 BFS - 7 000 types, 49 000 trace lines - was still in trace validation after 35 minutes: nestings deeper
+        # than 1 come from the simulation below)
+        bfs = [(1, False, ['E', 'I', 'A']), (1, True, ['E'], True), (1, True, ['I', 'A'])]
         sim = ('num=250', 6, ['E', 'I', 'A'])      # per TLC worker (4 workers): about one behaviour per second and worker
     cases = []
     big_ok = big
